@@ -75,9 +75,56 @@ def _helper_table(funcs, names):
     return tab
 
 
-def canonical_pair(f, cls, rf, cls_r, new_helpers, gone_helpers, cur_consts, ref_consts, cur_props=None, ref_props=None):
-    s1 = equiv.sized_chains(list(cls.body) if cls is not None else []) | {c for c in equiv.sized_chains([f]) if c[0] != 'self'}
-    s2 = equiv.sized_chains(list(cls_r.body) if cls_r is not None else []) | {c for c in equiv.sized_chains([rf]) if c[0] != 'self'}
+_PARSED = {}
+
+
+def _class_scope(tree, cls, side, depth=0):
+    """methods of a class and of its base classes (same module, or imported with `from X import B` from a repository module):
+    the scope in which `self.attr is only ever bound to containers` is decided"""
+    out = list(cls.body)
+    if tree is None or depth > 3:
+        return out
+    for b in cls.bases:
+        name = b.id if isinstance(b, ast.Name) else (b.attr if isinstance(b, ast.Attribute) else None)
+        if name is None or name == 'object':
+            continue
+        local = [st for st in tree.body if isinstance(st, ast.ClassDef) and st.name == name]
+        if local:
+            out += _class_scope(tree, local[0], side, depth + 1)
+            continue
+        for st in tree.body:
+            if isinstance(st, ast.ImportFrom) and st.level == 0 and st.module and any((a.asname or a.name) == name for a in st.names):
+                real = [a.name for a in st.names if (a.asname or a.name) == name][0]
+                key = (side, st.module)
+                if key not in _PARSED:
+                    src = None
+                    if side == 'ref':
+                        src = reference_sources().get(st.module)
+                    else:
+                        from . import loader
+                        path = os.path.join(loader.REPO, 'src', *st.module.split('.')) + '.py'
+                        try:
+                            src = open(path, encoding='utf-8', errors='replace').read()
+                        except OSError:
+                            src = None
+                    try:
+                        import warnings
+                        with warnings.catch_warnings():
+                            warnings.simplefilter('ignore')
+                            _PARSED[key] = ast.parse(src) if src is not None else None
+                    except SyntaxError:
+                        _PARSED[key] = None
+                other = _PARSED[key]
+                if other is not None:
+                    oc = [x for x in other.body if isinstance(x, ast.ClassDef) and x.name == real]
+                    if oc:
+                        out += _class_scope(other, oc[0], side, depth + 1)
+    return out
+
+
+def canonical_pair(f, cls, rf, cls_r, new_helpers, gone_helpers, cur_consts, ref_consts, cur_props=None, ref_props=None, cur_tree=None, ref_tree=None):
+    s1 = equiv.sized_chains(_class_scope(cur_tree, cls, 'cur') if cls is not None else []) | {c for c in equiv.sized_chains([f]) if c[0] != 'self'}
+    s2 = equiv.sized_chains(_class_scope(ref_tree, cls_r, 'ref') if cls_r is not None else []) | {c for c in equiv.sized_chains([rf]) if c[0] != 'self'}
     c1 = equiv.canonical(f, new_helpers, cur_consts, s1, cls.name if cls is not None else '', cur_props)
     if c1 is None:
         return None, None
@@ -106,7 +153,7 @@ def apply(cur_tree, ref_tree, prepare):
             continue
         if [ast.dump(d) for d in f.decorator_list] != [ast.dump(d) for d in rf.decorator_list]:
             continue
-        c1, c2 = canonical_pair(f, cls, rf, ref[q][2], new_helpers, gone_helpers, cur_consts, ref_consts, cur_props, ref_props)
+        c1, c2 = canonical_pair(f, cls, rf, ref[q][2], new_helpers, gone_helpers, cur_consts, ref_consts, cur_props, ref_props, cur_tree, ref_tree)
         if c1 is None or c2 is None or c1 != c2:
             continue
         new_body = copy.deepcopy(rf.body)
